@@ -105,6 +105,10 @@ Proof.
   destruct (ch_term_supports_color e || ch_unwrap_or (ch_clicolor e) false || ch_is_ci e); reflexivity.
 Qed.
 
+(* AutoStream::<S>::choice(&raw) forwards to it *)
+Lemma g_autostream_choice_eq e user raw : g_autostream_choice e user raw = ch_choice_fn e user raw.
+Proof. unfold g_autostream_choice. rewrite g_choice_eq. destruct (ch_choice_fn e user raw); reflexivity. Qed.
+
 (* ---- entry points ------------------------------------------------------------------------ *)
 
 (* the translated decision, on any value of the static, any environment, any stream *)
@@ -113,18 +117,23 @@ Theorem translated_choice_is_model : forall e user raw,
   match ch_to_choice user with Some g => Some (choice_model g e raw) | None => None end.
 Proof. intros. rewrite g_choice_eq. reflexivity. Qed.
 
-(* `c.write_global(); choice(raw)` over the translated code: whatever the static held, the
+Theorem translated_autostream_choice_is_model : forall e user raw,
+  g_autostream_choice e user raw =
+  match ch_to_choice user with Some g => Some (choice_model g e raw) | None => None end.
+Proof. intros. rewrite g_autostream_choice_eq. reflexivity. Qed.
+
+(* `c.write_global(); AutoStream::choice(&raw)` over the translated code: whatever the static held, the
    decision is the hand model's decision for the global [c] -- and therefore the decision list
    of the property (Spec/Choice.choice_spec) *)
 Theorem translated_write_then_choice : forall c e user raw,
-  (u <- g_write_global c user ;; g_choice e u raw) = Some (choice_model c e raw).
+  (u <- g_write_global c user ;; g_autostream_choice e u raw) = Some (choice_model c e raw).
 Proof.
-  intros. rewrite g_write_global_eq, g_choice_eq. unfold ch_choice_fn, ch_global, ch_write_global, ch_atomic_get, ch_atomic_set.
+  intros. rewrite g_write_global_eq, g_autostream_choice_eq. unfold ch_choice_fn, ch_global, ch_write_global, ch_atomic_get, ch_atomic_set.
   rewrite atomic_roundtrip. reflexivity.
 Qed.
 
 Theorem translated_write_then_choice_is_spec : forall c e user raw,
-  (u <- g_write_global c user ;; g_choice e u raw) = Some (choice_spec c e raw).
+  (u <- g_write_global c user ;; g_autostream_choice e u raw) = Some (choice_spec c e raw).
 Proof. intros. rewrite translated_write_then_choice, choice_is_spec. reflexivity. Qed.
 
 (* the command-line flag: `Color { color: f }.write_global(); ColorChoice::global()` *)
